@@ -13,8 +13,14 @@ abbrev Str := List Char
 def isAsciiSpace (c : Char) : Bool :=
   c == ' ' || c == '\t' || c == '\n' || c == '\x0b' || c == '\x0c' || c == '\r'
 
+/-- `unicode.ToLower` as far as it matters here: exact on ASCII, and exact on the only two
+    non-ASCII runes whose lower case is an ASCII letter (U+0130 → i, U+212A → k); every other rune
+    is left alone, which is indistinguishable wherever the result is compared with ASCII keywords -/
 def lowerChar (c : Char) : Char :=
-  if 'A' ≤ c ∧ c ≤ 'Z' then Char.ofNat (c.toNat + 32) else c
+  if 'A' ≤ c ∧ c ≤ 'Z' then Char.ofNat (c.toNat + 32)
+  else if c.toNat == 0x130 then 'i'
+  else if c.toNat == 0x212A then 'k'
+  else c
 
 def toLower (s : Str) : Str := s.map lowerChar
 
